@@ -66,8 +66,13 @@ func (w world) client() client.Client {
 	_ = configv1beta1.AddToScheme(scheme)
 	_ = expv1.AddToScheme(scheme)
 	var objs []client.Object
+	nss := map[string]bool{"ns1": true, "kubeflow": true}
 	for _, cm := range w.CMs {
 		objs = append(objs, &corev1.ConfigMap{ObjectMeta: metav1.ObjectMeta{Namespace: cm.NS, Name: cm.Name}, Data: cm.Data})
+		nss[cm.NS] = true
+	}
+	for ns := range nss { // the validating webhook insists on the metrics-collector-injection label of the namespace
+		objs = append(objs, &corev1.Namespace{ObjectMeta: metav1.ObjectMeta{Name: ns, Labels: map[string]string{"katib.kubeflow.org/metrics-collector-injection": "enabled"}}})
 	}
 	if w.Cfg.Mode != "missing" {
 		var b strings.Builder
